@@ -82,6 +82,9 @@ pub fn named_schemas(env: &Env) -> Vec<NamedSchema> {
 pub enum Reading {
     Open,
     Exact,
+    /// the engine's own reading: record atoms are exact where they occur positively and open where they occur
+    /// under a negation ("every exact value of the first type is a value of the second read structurally")
+    Polar,
 }
 
 fn tag_of(v: &JsVal) -> Option<SubTypeTag> {
@@ -129,12 +132,28 @@ impl<'a> SemEval<'a> {
 
     /// None = cannot be decided by this evaluator (value kind outside the fragment, fuel exhausted)
     pub fn member(&self, s: &SemType, v: &JsVal) -> Option<bool> {
+        self.member_p(s, v, true)
+    }
+
+    fn exact_here(&self, pol: bool) -> bool {
+        match self.reading {
+            Reading::Open => false,
+            Reading::Exact => true,
+            Reading::Polar => pol,
+        }
+    }
+
+    pub fn member_p(&self, s: &SemType, v: &JsVal, pol: bool) -> Option<bool> {
         if self.fuel.get() == 0 {
             return None;
         }
         self.fuel.set(self.fuel.get() - 1);
         let tag = tag_of(v)?;
         if s.all & tag.code() != 0 {
+            return Some(true);
+        }
+        // the "absent optional property" tag reads as `undefined` once it leaves its record (T["k"] for k?: ...)
+        if matches!(v, JsVal::Undef) && s.all & SubTypeTag::OptionalProp.code() != 0 {
             return Some(true);
         }
         for p in &s.subtype_data {
@@ -175,30 +194,33 @@ impl<'a> SemEval<'a> {
                     }
                     Some(if *allowed { any } else { !any })
                 }
-                (ProperSubtype::VoidUndefined { allowed, values }, JsVal::Undef) => {
-                    // the value `undefined` inhabits both `undefined` and `void`
-                    let any = values.iter().any(|x| matches!(x, VoidUndefinedSubtype::Undefined | VoidUndefinedSubtype::Void));
-                    let only_void_excluded = !*allowed && values.iter().all(|x| matches!(x, VoidUndefinedSubtype::Void));
-                    if only_void_excluded {
-                        return None; // "everything of this tag except void": not a value-level question
-                    }
-                    Some(if *allowed { any } else { !any })
+                (ProperSubtype::VoidUndefined { .. }, JsVal::Undef) => {
+                    // `void` is not a set of values in TypeScript (void and undefined are kept apart although both
+                    // are inhabited only by `undefined`): a partially present void/undefined tag is not a
+                    // value-level question, the evaluator does not decide it
+                    None
                 }
                 (ProperSubtype::TypedArray { allowed, values }, JsVal::TypedArr(k, _)) => {
                     let any = values.iter().any(|x| *x == typed_array_kind(*k));
                     Some(if *allowed { any } else { !any })
                 }
-                (ProperSubtype::Mapping(bdd), JsVal::Obj(_, _)) => self.bdd(bdd, v, 0),
-                (ProperSubtype::List(bdd), JsVal::Arr(_)) => self.bdd(bdd, v, 0),
-                (ProperSubtype::Map(bdd), JsVal::Map(_)) => self.bdd(bdd, v, 0),
-                (ProperSubtype::Set(bdd), JsVal::Set(_)) => self.bdd(bdd, v, 0),
+                (ProperSubtype::Mapping(bdd), JsVal::Obj(_, _)) => {
+                    if self.reading == Reading::Polar && pol {
+                        self.bdd_paths(bdd, v, &mut vec![], &mut vec![], 0)
+                    } else {
+                        self.bdd(bdd, v, 0, pol)
+                    }
+                }
+                (ProperSubtype::List(bdd), JsVal::Arr(_)) => self.bdd(bdd, v, 0, pol),
+                (ProperSubtype::Map(bdd), JsVal::Map(_)) => self.bdd(bdd, v, 0, pol),
+                (ProperSubtype::Set(bdd), JsVal::Set(_)) => self.bdd(bdd, v, 0, pol),
                 _ => None,
             };
         }
         Some(false)
     }
 
-    fn bdd(&self, b: &Bdd, v: &JsVal, depth: usize) -> Option<bool> {
+    fn bdd(&self, b: &Bdd, v: &JsVal, depth: usize, pol: bool) -> Option<bool> {
         if depth > 200 {
             return None;
         }
@@ -207,20 +229,96 @@ impl<'a> SemEval<'a> {
             Bdd::False => Some(false),
             Bdd::Node { atom, left, middle, right } => {
                 // (atom AND left) OR middle OR (NOT atom AND right)
-                if self.bdd(middle, v, depth + 1)? {
+                if self.bdd(middle, v, depth + 1, pol)? {
                     return Some(true);
                 }
-                let a = self.atom(atom, v)?;
-                if a {
-                    self.bdd(left, v, depth + 1)
-                } else {
-                    self.bdd(right, v, depth + 1)
+                // positive occurrence: membership under the current polarity; negated occurrence: under the flipped one
+                if self.atom(atom, v, pol)? && self.bdd(left, v, depth + 1, pol)? {
+                    return Some(true);
                 }
+                if !self.atom(atom, v, !pol)? && self.bdd(right, v, depth + 1, pol)? {
+                    return Some(true);
+                }
+                Some(false)
             }
         }
     }
 
-    fn atom(&self, a: &Atom, v: &JsVal) -> Option<bool> {
+    /// Polar reading of a record diagram: every path is a conjunction of positive and negated atoms; the value
+    /// must satisfy the positive atoms, carry no key beyond what they declare *together* (exactness is a property
+    /// of the merged record, as in the engine's intersect_mapping), and fail every negated atom read openly.
+    fn bdd_paths(&self, b: &Bdd, v: &JsVal, pos: &mut Vec<Atom>, neg: &mut Vec<Atom>, depth: usize) -> Option<bool> {
+        if depth > 200 {
+            return None;
+        }
+        match b {
+            Bdd::False => Some(false),
+            Bdd::True => self.conj(pos, neg, v),
+            Bdd::Node { atom, left, middle, right } => {
+                if self.bdd_paths(middle, v, pos, neg, depth + 1)? {
+                    return Some(true);
+                }
+                pos.push(*atom);
+                let l = self.bdd_paths(left, v, pos, neg, depth + 1);
+                pos.pop();
+                if l? {
+                    return Some(true);
+                }
+                neg.push(*atom);
+                let r = self.bdd_paths(right, v, pos, neg, depth + 1);
+                neg.pop();
+                r
+            }
+        }
+    }
+
+    fn conj(&self, pos: &[Atom], neg: &[Atom], v: &JsVal) -> Option<bool> {
+        let kv = match v {
+            JsVal::Obj(kv, _) => kv,
+            _ => return None,
+        };
+        // positive atoms: constraints hold (open on keys, nested types positive)
+        let open_positive = SemEval { ctx: self.ctx, reading: Reading::Polar, fuel: std::cell::Cell::new(self.fuel.get()) };
+        for p in pos {
+            if !open_positive.atom_with(p, v, true, false)? {
+                return Some(false);
+            }
+        }
+        // exactness of the merged record
+        if !pos.is_empty() {
+            for (k, _) in kv {
+                let mut admitted = false;
+                for p in pos {
+                    if let Atom::Mapping(i) = p {
+                        let m = self.ctx.mapping_definitions.get(*i)?.as_ref()?.clone();
+                        if m.vs.contains_key(k) {
+                            admitted = true;
+                        } else if let Some(ip) = &m.indexed_properties {
+                            if self.member_p(&ip.key, &JsVal::Str(k.clone()), true)? {
+                                admitted = true;
+                            }
+                        }
+                    }
+                }
+                if !admitted {
+                    return Some(false);
+                }
+            }
+        }
+        for n in neg {
+            if self.atom(n, v, false)? {
+                return Some(false);
+            }
+        }
+        Some(true)
+    }
+
+    fn atom(&self, a: &Atom, v: &JsVal, pol: bool) -> Option<bool> {
+        let exact = self.exact_here(pol);
+        self.atom_with(a, v, pol, exact)
+    }
+
+    fn atom_with(&self, a: &Atom, v: &JsVal, pol: bool, exact: bool) -> Option<bool> {
         match (a, v) {
             (Atom::Mapping(i), JsVal::Obj(kv, _)) => {
                 let m = self.ctx.mapping_definitions.get(*i)?.as_ref()?.clone();
@@ -229,10 +327,10 @@ impl<'a> SemEval<'a> {
                         Some((_, x)) => {
                             // an explicit `undefined` is not part of the engine's value universe for properties
                             if matches!(x, JsVal::Undef) {
-                                if !t.has_optional() && !self.member(t, x)? {
+                                if !t.has_optional() && !self.member_p(t, x, pol)? {
                                     return Some(false);
                                 }
-                            } else if !self.member(t, x)? {
+                            } else if !self.member_p(t, x, pol)? {
                                 return Some(false);
                             }
                         }
@@ -249,17 +347,17 @@ impl<'a> SemEval<'a> {
                     }
                     match &m.indexed_properties {
                         Some(ip) => {
-                            let key_ok = self.member(&ip.key, &JsVal::Str(k.clone()))?;
+                            let key_ok = self.member_p(&ip.key, &JsVal::Str(k.clone()), pol)?;
                             if key_ok {
-                                if !self.member(&ip.value, x)? {
+                                if !self.member_p(&ip.value, x, pol)? {
                                     return Some(false);
                                 }
-                            } else if self.reading == Reading::Exact {
+                            } else if exact {
                                 return Some(false);
                             }
                         }
                         None => {
-                            if self.reading == Reading::Exact {
+                            if exact {
                                 return Some(false);
                             }
                         }
@@ -273,12 +371,12 @@ impl<'a> SemEval<'a> {
                     return Some(false);
                 }
                 for (p, x) in l.prefix_items.iter().zip(xs.iter()) {
-                    if !self.member(p, x)? {
+                    if !self.member_p(p, x, pol)? {
                         return Some(false);
                     }
                 }
                 for x in &xs[l.prefix_items.len()..] {
-                    if !self.member(&l.items, x)? {
+                    if !self.member_p(&l.items, x, pol)? {
                         return Some(false);
                     }
                 }
@@ -288,7 +386,7 @@ impl<'a> SemEval<'a> {
                 let m = self.ctx.map_definitions.get(*i)?.as_ref()?.clone();
                 let ip = m.indexed_properties.as_ref()?;
                 for (k, x) in kv {
-                    if !self.member(&ip.key, k)? || !self.member(&ip.value, x)? {
+                    if !self.member_p(&ip.key, k, pol)? || !self.member_p(&ip.value, x, pol)? {
                         return Some(false);
                     }
                 }
@@ -297,7 +395,7 @@ impl<'a> SemEval<'a> {
             (Atom::Set(i), JsVal::Set(xs)) => {
                 let l = self.ctx.set_definitions.get(*i)?.as_ref()?.clone();
                 for x in xs {
-                    if !self.member(&l.items, x)? {
+                    if !self.member_p(&l.items, x, pol)? {
                         return Some(false);
                     }
                 }
@@ -323,10 +421,21 @@ impl<'a> RtEval<'a> {
         RtEval { defs, reading, fuel: std::cell::Cell::new(20_000) }
     }
     pub fn member(&self, t: &Runtype, v: &JsVal) -> Option<bool> {
+        self.member_p(t, v, true)
+    }
+    fn exact_here(&self, pol: bool) -> bool {
+        match self.reading {
+            Reading::Open => false,
+            Reading::Exact => true,
+            Reading::Polar => pol,
+        }
+    }
+    pub fn member_p(&self, t: &Runtype, v: &JsVal, pol: bool) -> Option<bool> {
         if self.fuel.get() == 0 {
             return None;
         }
         self.fuel.set(self.fuel.get() - 1);
+        let exact = self.exact_here(pol);
         // only the value kinds of the semantic universe
         tag_of(v)?;
         Some(match &t.kind {
@@ -351,7 +460,7 @@ impl<'a> RtEval<'a> {
             RuntypeKind::Array(item) => match v {
                 JsVal::Arr(xs) => {
                     for x in xs {
-                        if !self.member(item, x)? {
+                        if !self.member_p(item, x, pol)? {
                             return Some(false);
                         }
                     }
@@ -365,7 +474,7 @@ impl<'a> RtEval<'a> {
                         return Some(false);
                     }
                     for (p, x) in prefix_items.iter().zip(xs.iter()) {
-                        if !self.member(p, x)? {
+                        if !self.member_p(p, x, pol)? {
                             return Some(false);
                         }
                     }
@@ -373,7 +482,7 @@ impl<'a> RtEval<'a> {
                         None => xs.len() == prefix_items.len(),
                         Some(r) => {
                             for x in &xs[prefix_items.len()..] {
-                                if !self.member(r, x)? {
+                                if !self.member_p(r, x, pol)? {
                                     return Some(false);
                                 }
                             }
@@ -391,7 +500,7 @@ impl<'a> RtEval<'a> {
                                 if matches!(x, JsVal::Undef) && !t.is_required() {
                                     continue;
                                 }
-                                if !self.member(t.inner(), x)? {
+                                if !self.member_p(t.inner(), x, pol)? {
                                     return Some(false);
                                 }
                             }
@@ -408,16 +517,16 @@ impl<'a> RtEval<'a> {
                         }
                         match indexed_properties {
                             Some(ip) => {
-                                if self.member(&ip.key, &JsVal::Str(k.clone()))? {
-                                    if !self.member(ip.value.inner(), x)? {
+                                if self.member_p(&ip.key, &JsVal::Str(k.clone()), pol)? {
+                                    if !self.member_p(ip.value.inner(), x, pol)? {
                                         return Some(false);
                                     }
-                                } else if self.reading == Reading::Exact {
+                                } else if exact {
                                     return Some(false);
                                 }
                             }
                             None => {
-                                if self.reading == Reading::Exact {
+                                if exact {
                                     return Some(false);
                                 }
                             }
@@ -430,7 +539,7 @@ impl<'a> RtEval<'a> {
             RuntypeKind::Map(kt, vt) => match v {
                 JsVal::Map(kv) => {
                     for (k, x) in kv {
-                        if !self.member(kt, k)? || !self.member(vt, x)? {
+                        if !self.member_p(kt, k, pol)? || !self.member_p(vt, x, pol)? {
                             return Some(false);
                         }
                     }
@@ -441,7 +550,7 @@ impl<'a> RtEval<'a> {
             RuntypeKind::Set(t) => match v {
                 JsVal::Set(xs) => {
                     for x in xs {
-                        if !self.member(t, x)? {
+                        if !self.member_p(t, x, pol)? {
                             return Some(false);
                         }
                     }
@@ -451,26 +560,125 @@ impl<'a> RtEval<'a> {
             },
             RuntypeKind::AnyOf(ms) => {
                 for m in ms {
-                    if self.member(m, v)? {
+                    if self.member_p(m, v, pol)? {
                         return Some(true);
                     }
                 }
                 false
             }
             RuntypeKind::AllOf(ms) => {
+                if exact && matches!(v, JsVal::Obj(_, _)) {
+                    // exactness belongs to the merged record: members are read openly, then the keys are
+                    // checked against everything the object members declare together
+                    let open = RtEval { defs: self.defs, reading: Reading::Open, fuel: std::cell::Cell::new(self.fuel.get()) };
+                    for m in ms {
+                        let ok = if self.is_object_like(m) { open.member_shallow_open(self, m, v, pol)? } else { self.member_p(m, v, pol)? };
+                        if !ok {
+                            return Some(false);
+                        }
+                    }
+                    if let JsVal::Obj(kv, _) = v {
+                        let mut any_object = false;
+                        for (k, _) in kv {
+                            let mut admitted = false;
+                            for m in ms {
+                                if let Some((vs, ip)) = self.object_parts(m) {
+                                    any_object = true;
+                                    if vs.contains_key(k) {
+                                        admitted = true;
+                                    } else if let Some(ip) = ip {
+                                        if self.member_p(&ip.key, &JsVal::Str(k.clone()), pol)? {
+                                            admitted = true;
+                                        }
+                                    }
+                                }
+                            }
+                            if any_object && !admitted {
+                                return Some(false);
+                            }
+                        }
+                    }
+                    return Some(true);
+                }
                 for m in ms {
-                    if !self.member(m, v)? {
+                    if !self.member_p(m, v, pol)? {
                         return Some(false);
                     }
                 }
                 true
             }
-            RuntypeKind::StNot(inner) => !self.member(inner, v)?,
+            RuntypeKind::StNot(inner) => !self.member_p(inner, v, !pol)?,
             RuntypeKind::Ref(r) => {
                 let target = self.defs.iter().find(|d| d.name == *r)?;
-                self.member(&target.schema, v)?
+                self.member_p(&target.schema, v, pol)?
             }
         })
+    }
+}
+
+impl<'a> RtEval<'a> {
+    fn resolve<'b>(&'b self, t: &'b Runtype) -> &'b Runtype {
+        let mut cur = t;
+        let mut n = 0;
+        while let RuntypeKind::Ref(r) = &cur.kind {
+            match self.defs.iter().find(|d| d.name == *r) {
+                Some(d) => cur = &d.schema,
+                None => break,
+            }
+            n += 1;
+            if n > 30 {
+                break;
+            }
+        }
+        cur
+    }
+    fn is_object_like(&self, t: &Runtype) -> bool {
+        matches!(self.resolve(t).kind, RuntypeKind::Object { .. })
+    }
+    #[allow(clippy::type_complexity)]
+    fn object_parts<'b>(&'b self, t: &'b Runtype) -> Option<(&'b BTreeMap<String, Optionality<Runtype>>, Option<&'b IndexedProperty>)> {
+        match &self.resolve(t).kind {
+            RuntypeKind::Object { vs, indexed_properties } => Some((vs, indexed_properties.as_deref())),
+            _ => None,
+        }
+    }
+    /// the object member `t` of an intersection: its own constraints hold, other keys are not its business;
+    /// nested types keep the caller's (polar) reading
+    fn member_shallow_open(&self, polar: &RtEval, t: &Runtype, v: &JsVal, pol: bool) -> Option<bool> {
+        let (vs, ip) = polar.object_parts(t)?;
+        let kv = match v {
+            JsVal::Obj(kv, _) => kv,
+            _ => return Some(false),
+        };
+        for (k, ty) in vs {
+            match kv.iter().find(|(x, _)| x == k) {
+                Some((_, x)) => {
+                    if matches!(x, JsVal::Undef) && !ty.is_required() {
+                        continue;
+                    }
+                    if !polar.member_p(ty.inner(), x, pol)? {
+                        return Some(false);
+                    }
+                }
+                None => {
+                    if ty.is_required() {
+                        return Some(false);
+                    }
+                }
+            }
+        }
+        if let Some(ip) = ip {
+            for (k, x) in kv {
+                if vs.contains_key(k) {
+                    continue;
+                }
+                if polar.member_p(&ip.key, &JsVal::Str(k.clone()), pol)? && !polar.member_p(ip.value.inner(), x, pol)? {
+                    return Some(false);
+                }
+            }
+        }
+        let _ = self;
+        Some(true)
     }
 }
 
@@ -679,6 +887,7 @@ pub fn handle_sem(req: &Value) -> Value {
                 Ok(c) => c,
                 Err(e) => return json!({"clean_err": e.to_string()}),
             };
+            let dropped_negation = contains_not_or_empty_union(&head.schema) == Some("StNot") && contains_not_or_empty_union(&cleaned) != Some("StNot");
             // (c) printable
             let unprintable = contains_not_or_empty_union(&cleaned).or_else(|| tail.iter().find_map(|t| contains_not_or_empty_union(&t.schema)));
             // (d) every Ref resolves to exactly one definition
@@ -719,7 +928,9 @@ pub fn handle_sem(req: &Value) -> Value {
             let mut evals = 0u64;
             let mut separating = 0u64;
             let mut in_count = 0u64;
-            for reading in [Reading::Open, Reading::Exact] {
+            // the engine prunes with "exact positive, open negative" emptiness: the open reading is the one under
+            // which a semantic type and its simplified materialisation must coincide value by value
+            for reading in [Reading::Polar] {
                 let sev = SemEval::new(&ctx, reading);
                 let rev = RtEval::new(&all_defs, reading);
                 for v in &values {
@@ -757,7 +968,8 @@ pub fn handle_sem(req: &Value) -> Value {
             json!({
                 "empty": empty, "same_as_operand": same_as_operand, "unprintable": unprintable, "problems": problems,
                 "roundtrip": roundtrip, "value_problems": value_problems, "evals": evals, "separating": separating,
-                "in_count": in_count, "tail": tail.len(), "printed": dbg
+                "in_count": in_count, "tail": tail.len(), "printed": dbg, "dropped_negation": dropped_negation,
+                "debug_semtype": if req["debug"].as_bool().unwrap_or(false) { format!("{:?}", s) } else { String::new() }
             })
         }
         _ => json!({"error": "unknown sem request"}),
